@@ -130,7 +130,7 @@ func c17(c *Ctx) {
 					ok := false
 					for _, rs := range nodesIn(f, func(n ast.Node) bool { r, ok := n.(*ast.RangeStmt); return ok && exprStr(r.X) == src }) {
 						r := rs.(*ast.RangeStmt)
-						if rangeSanitises(info, r, isApply) && r.End() < as.Pos() && !hasEarlyExit(r.Body) {
+						if rangeSanitises(info, r, isApply) && !hasEarlyExit(r.Body) {
 							// the loop dominates the append: its X vertex dominates
 							if rx := g.NodeOf(r.X); rx != nil {
 								if d, _ := g.DominatedByNodes(x, map[*GNode]bool{rx: true}); d {
@@ -149,7 +149,7 @@ func c17(c *Ctx) {
 					ok := false
 					for _, rs := range nodesIn(f, func(n ast.Node) bool { r, ok := n.(*ast.RangeStmt); return ok && isStore(r.X) }) {
 						r := rs.(*ast.RangeStmt)
-						if r.Pos() > as.End() && rangeSanitises(info, r, isApply) && !hasEarlyExit(r.Body) {
+						if rangeSanitises(info, r, isApply) && !hasEarlyExit(r.Body) {
 							if rx := g.NodeOf(r.X); rx != nil {
 								if must, _ := g.MustPassBeforeExit(x, map[*GNode]bool{rx: true}); must {
 									ok = true
@@ -192,7 +192,8 @@ func c17(c *Ctx) {
 			cut, plain := false, false
 			for x := range seen {
 				if rs, ok := x.N.(*ast.ReturnStmt); ok && len(rs.Results) == 2 {
-					if _, isSl := unparen(rs.Results[0]).(*ast.SliceExpr); isSl {
+					// the returned list, seen through a local or the re-assigned parameter (kvs = kvs[:n]; return kvs, dropped)
+					if _, isSl := unparen(g.ResolveUnder(env, seen, rs.Results[0], x)).(*ast.SliceExpr); isSl {
 						cut = true
 					} else {
 						plain = true
@@ -201,20 +202,46 @@ func c17(c *Ctx) {
 			}
 			c.Check(cut == row.cut && plain == !row.cut, "R2", "sdk/log|head|"+row.name, at(ix.M, fn.Pos()), "cut="+boolStr(cut),
 				"count limit "+row.name+": code cuts="+boolStr(cut)+", documented behaviour cuts="+boolStr(row.cut)+" (WithAttributeCountLimit: zero means no attributes will be recorded)")
-		}
-		// the cut uses the same n for the slice and the dropped count
-		good := false
-		inspectNoLit(fn.Body(), func(nd ast.Node) bool {
-			if rs, ok := nd.(*ast.ReturnStmt); ok && len(rs.Results) == 2 {
-				if se, ok := unparen(rs.Results[0]).(*ast.SliceExpr); ok && se.Low == nil && sameVar(info, se.High, n) {
-					if be, ok := unparen(rs.Results[1]).(*ast.BinaryExpr); ok && be.Op == token.SUB && sameVar(info, be.Y, n) && isLenOf(info, be.X, func(x ast.Expr) bool { return sameVar(info, x, kvs) }) {
-						good = true
-					}
+			if row.name != "limit>0 len>limit" {
+				continue
+			}
+			// on the cutting path the same n is used for the slice and the dropped count, and len(kvs) is read before kvs is cut
+			good := false
+			for x := range seen {
+				if rs, ok := x.N.(*ast.ReturnStmt); ok && len(rs.Results) == 2 {
+					se, isSl := unparen(g.ResolveUnder(env, seen, rs.Results[0], x)).(*ast.SliceExpr)
+					be, isB := unparen(g.ResolveUnder(env, seen, rs.Results[1], x)).(*ast.BinaryExpr)
+					good = isSl && isB && se.Low == nil && sameVar(info, se.High, n) && sameVar(info, se.X, kvs) &&
+						be.Op == token.SUB && sameVar(info, be.Y, n) && isLenOf(info, be.X, func(x ast.Expr) bool { return sameVar(info, x, kvs) })
 				}
 			}
-			return true
-		})
-		c.Check(good, "R4", "sdk/log|head|returns kvs[:n] with len(kvs) − n", at(ix.M, fn.Pos()), "kept + dropped = offered at this site", "head's dropped count does not match the cut")
+			for _, asn := range g.Match(func(nd ast.Node) bool {
+				as, ok := nd.(*ast.AssignStmt)
+				if !ok {
+					return false
+				}
+				for _, l := range as.Lhs {
+					if sameVar(info, l, kvs) {
+						return true
+					}
+				}
+				return false
+			}) {
+				after, _ := g.Reach([]*GNode{asn}, nil, nil)
+				for y := range after {
+					if y.N == nil {
+						continue
+					}
+					inspectNoLit(y.N, func(nd ast.Node) bool {
+						if e, ok := nd.(ast.Expr); ok && isLenOf(info, e, func(x ast.Expr) bool { return sameVar(info, x, kvs) }) {
+							good = false
+						}
+						return true
+					})
+				}
+			}
+			c.Check(good, "R4", "sdk/log|head|returns kvs[:n] with len(kvs) − n", at(ix.M, fn.Pos()), "kept + dropped = offered at this site", "head's dropped count does not match the cut")
+		}
 	}
 	addA := c.Fn(ix, "R2", "(*Record).AddAttributes")
 	addAttrsF := ix.Func("(*Record).addAttrs")
@@ -385,7 +412,22 @@ func c17(c *Ctx) {
 		for _, s := range ix.FindCalls(func(f *FuncInfo, call *ast.CallExpr) bool {
 			return ix.Outer(f) == fn && callToDecl(info, addA)(call)
 		}) {
-			if lit != nil && s.N.Pos() < lit.End() {
+			// in the flow graph, not by source position: the statement holding the call (or the function literal it sits in) is
+			// dominated by the statement holding the Record literal
+			if lit == nil {
+				continue
+			}
+			g := ix.FG(fn)
+			var holder ast.Node = s.N
+			for f := s.F; f != nil && f != fn && f.Lit != nil; f = ix.Parent[f.Lit] {
+				holder = f.Lit
+			}
+			ln, hn := g.NodeOf(lit), g.NodeOf(holder)
+			if ln == nil || hn == nil {
+				after = false
+				continue
+			}
+			if d, _ := g.DominatedByNodes(hn, map[*GNode]bool{ln: true}); !d || hn == ln {
 				after = false
 			}
 		}
@@ -418,6 +460,112 @@ func c17(c *Ctx) {
 			v, isC := constInt(info, call.Args[0])
 			return isC && v == 1
 		}))
+		// … or the arm bumps a local counter that is handed to addDropped once the loop is over: every increment is by one, the
+		// counter starts at zero and is stored nowhere else, and from each increment every path to the exit passes the single
+		// addDropped(counter) — or an edge on which the counter is known to be zero (if counter > 0 { addDropped(counter) })
+		ctrs := map[types.Object][]*GNode{}
+		for _, x := range g.Nodes {
+			var id ast.Expr
+			switch s := x.N.(type) {
+			case *ast.IncDecStmt:
+				if s.Tok == token.INC {
+					id = s.X
+				}
+			case *ast.AssignStmt:
+				if s.Tok == token.ADD_ASSIGN && len(s.Lhs) == 1 && len(s.Rhs) == 1 {
+					if v, isC := constInt(info, s.Rhs[0]); isC && v == 1 {
+						id = s.Lhs[0]
+					}
+				}
+			}
+			if id == nil {
+				continue
+			}
+			if _, isID := unparen(id).(*ast.Ident); !isID {
+				continue
+			}
+			if o := objOf(info, id); o != nil && definedIn(info, addA.Body(), o) {
+				ctrs[o] = append(ctrs[o], x)
+			}
+		}
+		for o, incs := range ctrs {
+			incSet := toSet(incs)
+			sound := true
+			inspectNoLit(addA.Body(), func(n ast.Node) bool {
+				switch s := n.(type) {
+				case *ast.AssignStmt:
+					for i, l := range s.Lhs {
+						if objOf(info, l) != o {
+							continue
+						}
+						if _, isID := unparen(l).(*ast.Ident); !isID {
+							continue
+						}
+						if nd := g.NodeOf(s); nd != nil && incSet[nd] {
+							continue
+						}
+						z := false
+						if s.Tok == token.DEFINE && len(s.Lhs) == len(s.Rhs) {
+							if v, isC := constInt(info, s.Rhs[i]); isC && v == 0 {
+								z = true
+							}
+						}
+						sound = sound && z
+					}
+				case *ast.ValueSpec:
+					for i, nm := range s.Names {
+						if info.Defs[nm] == o && i < len(s.Values) {
+							if v, isC := constInt(info, s.Values[i]); !isC || v != 0 {
+								sound = false
+							}
+						}
+					}
+				case *ast.UnaryExpr:
+					if s.Op == token.AND && objOf(info, s.X) == o {
+						sound = false
+					}
+				case *ast.IncDecStmt:
+					if objOf(info, s.X) == o && s.Tok != token.INC {
+						sound = false
+					}
+				}
+				return true
+			})
+			flush := g.Match(func(n ast.Node) bool {
+				call, ok := n.(*ast.CallExpr)
+				return ok && callToDecl(info, addDropped)(call) && len(call.Args) == 1 && objOf(info, call.Args[0]) == o && unparen(call.Args[0]) == call.Args[0]
+			})
+			if !sound || len(flush) != 1 || g.InCycle(flush[0]) {
+				continue
+			}
+			zeroEdge := func(e *GEdge) bool {
+				if e.Cond == nil || e.Tag != nil {
+					return false
+				}
+				at := func(k int64) (bool, bool) {
+					v, ok := evalConst(info, e.Cond, func(x ast.Expr) (constant.Value, bool) {
+						if id, isID := x.(*ast.Ident); isID && info.Uses[id] == o {
+							return constant.MakeInt64(k), true
+						}
+						return nil, false
+					})
+					if !ok || v.Kind() != constant.Bool {
+						return false, false
+					}
+					return constant.BoolVal(v) == (e.Pol > 0), true
+				}
+				a, okA := at(0)
+				b, okB := at(1)
+				d, okD := at(1 << 20)
+				return okA && okB && okD && a && !b && !d
+			}
+			seen, _ := g.Reach(incs, func(y *GNode) bool { return y == flush[0] }, zeroEdge)
+			if !seen[g.Exit] {
+				for _, x := range incs {
+					one[x] = true
+				}
+			}
+		}
 		nEdges, good := 0, true
 		why := ""
 		for _, x := range g.Nodes {
@@ -511,6 +659,39 @@ func c17(c *Ctx) {
 						}
 					}
 				}
+			}
+		}
+		// … or the count is, by definition, what was offered minus what is handed back: return unique, len(kvs) − len(unique) with
+		// kvs the parameter as received (never re-assigned; a slice of it shares the array, not the length)
+		if !(nEdges == 1 && good) && res.Len() == 2 {
+			kvs := fn.Obj.Type().(*types.Signature).Params().At(0)
+			rets, byDef := 0, true
+			inspectNoLit(fn.Body(), func(n ast.Node) bool {
+				switch s := n.(type) {
+				case *ast.AssignStmt:
+					for _, l := range s.Lhs {
+						if _, isID := unparen(l).(*ast.Ident); isID && sameVar(info, l, kvs) {
+							byDef = false
+						}
+					}
+				case *ast.ReturnStmt:
+					rets++
+					if len(s.Results) != 2 {
+						byDef = false
+						break
+					}
+					out := objOf(info, s.Results[0])
+					be, isB := unparen(s.Results[1]).(*ast.BinaryExpr)
+					if _, isID := unparen(s.Results[0]).(*ast.Ident); !isID || out == nil || !isB || be.Op != token.SUB ||
+						!isLenOf(info, be.X, func(x ast.Expr) bool { return sameVar(info, x, kvs) }) ||
+						!isLenOf(info, be.Y, func(x ast.Expr) bool { return objOf(info, x) == out }) {
+						byDef = false
+					}
+				}
+				return true
+			})
+			if rets >= 1 && byDef {
+				nEdges, good = 1, true
 			}
 		}
 		c.Check(nEdges == 1 && good, "R4", "sdk/log|dedup|duplicate key ⇒ dropped++", at(ix.M, fn.Pos()), "each replaced duplicate is counted", "duplicates removed by dedup are not counted")
